@@ -335,6 +335,8 @@ func c05Primary(r *Run, shape string, faulting, nested bool) {
 	t := r.Tape
 	h := &hist{r: r, name: "db"}
 	h.pageSize = pickPageSize(t)
+	r.SectorSize = pickSectorSize(t)
+	r.Cfg["sector_size"] = r.SectorSize
 	if h.pageSize > 8192 {
 		h.pageSize = 4096 // keep image copies cheap
 	}
@@ -655,6 +657,8 @@ func c05Replica(r *Run, shape string, faulting, nested bool) {
 	t := r.Tape
 	h := &hist{r: r, name: "db"}
 	h.pageSize = pickPageSize(t)
+	r.SectorSize = pickSectorSize(t)
+	r.Cfg["sector_size"] = r.SectorSize
 	if h.pageSize > 8192 {
 		h.pageSize = 4096
 	}
